@@ -33,6 +33,7 @@ class _FloatShim:
 
 shims.install_np(LCM, LM, NT, LC)
 shims.install(LM, float=_FloatShim())
+shims.install(NT, float=_FloatShim())
 shims.register_singledispatch(NT.sign)
 
 KINDS = ("neg", "pos", "str", "neginf", "posinf", "strinf_l", "strinf_r", "all")
@@ -424,13 +425,21 @@ def h_split(ctx, d, kinds, axis, side):
 
 def h_nonneg(ctx, d, kinds):
     """mass >= 0 on rectangles inside one orthant, from the d-increasing axiom instantiated on the image rectangle"""
-    mdl, models, cop = make_model(ctx, d)
+    mdl, models, cop = make_model(ctx, d, finite_activity=any(k in ("neg0", "pos0") for k in kinds))
     ivs = [interval(ctx, f"x{i}", k) for i, k in enumerate(kinds)]
     a = [iv[0] for iv in ivs]
     b = [iv[1] for iv in ivs]
+
+    def U(i, x, k):
+        # an end exactly at 0 (kinds neg0 / pos0, finite-activity margins): the tail integral of the side the interval lies on
+        if isinstance(x, float) and x == 0.0:
+            nu = models[i].levy_triplet.nu
+            return -nu.neg_term(0, -INF, 0.0) if k == "neg0" else nu.pos_term(0, 0.0, INF)
+        return _U(models, i, x)
+
     # tail integrals are decreasing on each side: the image of [a_i, b_i] is [U_i(b_i), U_i(a_i)]
-    lo = [_U(models, i, b[i]) for i in range(d)]
-    hi = [_U(models, i, a[i]) for i in range(d)]
+    lo = [U(i, b[i], kinds[i]) for i in range(d)]
+    hi = [U(i, a[i], kinds[i]) for i in range(d)]
     got = mdl.mass(tuple(a), tuple(b))
     ctx.instantiate()
     cop.axiom_increasing(lo, hi)
@@ -552,7 +561,7 @@ def harnesses(tier):
     for d in (2, 3):
         hs.append(Harness(f"tail.{d}", h_tail_integral, {"d": d}, max_paths=500))
         for axis in range(d):
-            for kind in ("neg", "pos", "neginf", "posinf"):
+            for kind in ("neg", "pos", "neginf", "posinf"):  # an end exactly at 0 would make the slab touch the origin: outside the property
                 hs.append(Harness(f"marginsum.{d}.{axis}.{kind}", h_margin_sum, {"d": d, "axis": axis, "kind": kind}, max_paths=500))
     side_kinds = ("neg", "pos") if q else ("neg", "pos", "neginf", "posinf")
     for idx in ([0], [1], [2], [0, 1], [0, 2], [1, 2]):
@@ -582,6 +591,12 @@ def harnesses(tier):
                     hs.append(Harness(f"split3d.{'.'.join(kinds)}.{axis}.{side}", h_split, {"d": 3, "kinds": kinds, "axis": axis, "side": side}, max_paths=2000))
     for kinds in itertools.product(("neg", "pos"), repeat=2):
         hs.append(Harness(f"nonneg2d.{'.'.join(kinds)}", h_nonneg, {"d": 2, "kinds": kinds}, max_paths=500))
+    # a lower end exactly at 0 on the positive side: (0, b] leaves the axis out and its image is [U(b), U(0+)].  (An upper end at 0 on the
+    # negative side, (a, 0], contains the part of the axis x_i = 0 where only the other components jump: not an F-volume, not claimed here.)
+    for kinds in [("pos0", "pos"), ("pos", "pos0"), ("pos0", "neg"), ("neg", "pos0")]:
+        hs.append(Harness(f"nonneg2d.{'.'.join(kinds)}", h_nonneg, {"d": 2, "kinds": kinds}, max_paths=500))
+    for kinds in [("pos0", "pos", "neg"), ("neg", "pos0", "pos"), ("pos", "pos", "pos0")]:
+        hs.append(Harness(f"nonneg3d.{'.'.join(kinds)}", h_nonneg, {"d": 3, "kinds": kinds}, max_paths=500))
     for kinds in itertools.product(("neg", "pos"), repeat=3):
         hs.append(Harness(f"nonneg3d.{'.'.join(kinds)}", h_nonneg, {"d": 3, "kinds": kinds}, max_paths=500))
     for order in ((0, 1), (1, 0, 1), (0, 0, 1)):
